@@ -6,6 +6,7 @@ package main
 
 import (
 	"math"
+	"reflect"
 
 	"github.com/pion/rtcp"
 )
@@ -576,6 +577,16 @@ func genTWCC(r *rng, sz int) *rtcp.TransportLayerCC {
 		size = (size/4 + 1) * 4
 	}
 	t.Header = rtcp.Header{Padding: pad, Count: rtcp.FormatTCC, Type: rtcp.TypeTransportSpecificFeedback, Length: uint16(size/4 - 1)}
+	switch r.intn(16) {
+	case 0:
+		t.Header.Padding = !t.Header.Padding // header disagrees with the content (the caller owns the header)
+	case 1:
+		t.Header.Length += uint16(1 + r.intn(2))
+	case 2:
+		if t.Header.Length > 0 {
+			t.Header.Length--
+		}
+	}
 	if sz == szBad {
 		switch r.intn(3) {
 		case 0:
@@ -900,7 +911,83 @@ func genRaw(r *rng, sz int) *rtcp.RawPacket {
 func genPacket(kind int, seed uint64) rtcp.Packet {
 	r := &rng{s: seed ^ uint64(kind)*0x9e3779b97f4a7c15}
 	sz := r.sizeClass()
-	return genPacketSz(r, kind, sz)
+	p := genPacketSz(r, kind, sz)
+	addSpare(reflect.ValueOf(p), r.fork(), 0)
+	return p
+}
+
+// addSpare gives the slices inside a generated value random spare capacity whose slots hold a
+// recognisable non-zero pattern (DESIGN §4.4 rule 9, for every element type): an append by the
+// library into a caller's backing array then lands in memory the snapshots cover instead of
+// silently reallocating.  Slots of pointer or interface type stay nil (a write makes them non-nil).
+func addSpare(v reflect.Value, r *rng, depth int) {
+	if depth > 12 || !v.IsValid() {
+		return
+	}
+	switch v.Kind() {
+	case reflect.Ptr, reflect.Interface:
+		if !v.IsNil() {
+			addSpare(v.Elem(), r, depth+1)
+		}
+	case reflect.Struct:
+		t := v.Type()
+		for i := 0; i < t.NumField(); i++ {
+			if t.Field(i).PkgPath == "" {
+				addSpare(v.Field(i), r, depth+1)
+			}
+		}
+	case reflect.Slice:
+		if v.IsNil() || !v.CanSet() {
+			return
+		}
+		n := v.Len()
+		if v.Cap() == n && r.chance(2) && v.Type().Elem().Kind() != reflect.Uint8 {
+			extra := 1 + r.intn(3)
+			nv := reflect.MakeSlice(v.Type(), n+extra, n+extra)
+			reflect.Copy(nv, v)
+			for i := n; i < n+extra; i++ {
+				fillPattern(nv.Index(i), 0)
+			}
+			v.Set(nv.Slice(0, n))
+		}
+		lim := n
+		if lim > 40 {
+			lim = 40
+		}
+		for i := 0; i < lim; i++ {
+			addSpare(v.Index(i), r, depth+1)
+		}
+	}
+}
+
+// fillPattern stores a recognisable non-zero pattern in a spare slot.
+func fillPattern(v reflect.Value, depth int) {
+	if depth > 6 || !v.CanSet() {
+		return
+	}
+	switch v.Kind() {
+	case reflect.Bool:
+		v.SetBool(true)
+	case reflect.Int, reflect.Int8, reflect.Int16, reflect.Int32, reflect.Int64:
+		v.SetInt(0x25)
+	case reflect.Uint8:
+		v.SetUint(0xA5)
+	case reflect.Uint16:
+		v.SetUint(0xA5A5)
+	case reflect.Uint, reflect.Uint32, reflect.Uint64:
+		v.SetUint(0xA5A5A5A5)
+	case reflect.Float32, reflect.Float64:
+		v.SetFloat(165)
+	case reflect.String:
+		v.SetString("\xa5")
+	case reflect.Struct:
+		t := v.Type()
+		for i := 0; i < t.NumField(); i++ {
+			if t.Field(i).PkgPath == "" {
+				fillPattern(v.Field(i), depth+1)
+			}
+		}
+	}
 }
 
 func genPacketSz(r *rng, kind int, sz int) rtcp.Packet {
@@ -1021,6 +1108,9 @@ func genList(seed uint64) []rtcp.Packet {
 			sz = szOne
 		}
 		out = append(out, genPacketSz(r, k, sz))
+	}
+	for _, p := range out {
+		addSpare(reflect.ValueOf(p), r.fork(), 0)
 	}
 	if len(out) > 0 && r.chance(10) {
 		out = append(out, out[r.intn(len(out))]) // the same packet object twice in the list
